@@ -102,7 +102,7 @@ def scan_forbidden():
     return hits
 
 
-def audit(pid):
+def audit(pid, tier="quick"):
     """build the property module, then #print axioms for every theorem named <pid>_*.
     returns (obligations, discharged, details, problems)"""
     names, path = theorems_of(pid)
@@ -144,6 +144,12 @@ def audit(pid):
     forb = scan_forbidden()
     if forb:
         problems.append("forbidden constructs in the Lean sources: " + "; ".join(forb[:5]))
+    if tier == "thorough":
+        # independent re-check of the compiled property module by the toolchain's `leanchecker`
+        r = sh(["lake", "env", "leanchecker", f"BS.Props.{pid}"], cwd=LEAN, timeout=1800)
+        details.append({"leanchecker": f"BS.Props.{pid}", "rc": r.returncode})
+        if r.returncode != 0:
+            problems.append(f"leanchecker rejects BS.Props.{pid}: {(r.stdout + r.stderr)[-500:]}")
     return len(names), discharged, details, problems
 
 
@@ -329,9 +335,11 @@ def proj(pid, op, core):
             return ("rejected" if r in ("present", "toolarge") else r, d.get("len"), d.get("full"))
         if pid == "C12":
             r = d.get("r", "")
-            return ("evicts" if r.startswith("ok:") and r != "ok:0" else r if not r.startswith("ok:") else "keeps")
+            return ("evicts" if r.startswith("ok:") and r != "ok:0" else "keeps" if r.startswith("ok:")
+                    else "rejected" if r in ("present", "toolarge") else r)
         if pid in ("C11", "C06"):
-            return d.get("r", "").split(":")[0]
+            r = d.get("r", "").split(":")[0]
+            return "rejected" if r in ("present", "toolarge") else r
         return None
     if kind == "cget":
         d = kv(core)
